@@ -183,16 +183,36 @@ def _align(a, b):
     return na, nb, d
 
 
+def _const_int(t):
+    return t.as_long() if z3.is_int_value(t) else None
+
+
 def _arith(a, b, op):
     """a (op) b for op in + - on Syms"""
     if a.dp is not None and b.dp is not None:
         na, nb, d = _align(a, b)
-        return Sym(op(na, nb), d)
+        alts = None
+        # keep the finite-alternatives view through +/- with a constant
+        if a.alts is not None and _const_int(nb) is not None:
+            k, sc = _const_int(nb), 10 ** (d - a.dp)
+            alts = [(c, op(v * sc, k)) for c, v in a.alts]
+        elif b.alts is not None and _const_int(na) is not None:
+            k, sc = _const_int(na), 10 ** (d - b.dp)
+            alts = [(c, op(k, v * sc)) for c, v in b.alts]
+        return Sym(op(na, nb), d, alts)
     return Sym(op(a.r_(), b.r_()), None)
 
 
 def _mul(a, b):
     if a.dp is not None and b.dp is not None and a.dp + b.dp <= MAX_DP:
+        if b.alts is not None and a.alts is None:
+            a, b = b, a
+        if a.alts is not None and _const_int(b.n) is None:
+            # distribute over the finite alternatives: stays linear in b
+            t = a.alts[-1][1] * b.n
+            for c, v in reversed(a.alts[:-1]):
+                t = z3.If(c, v * b.n, t)
+            return Sym(t, a.dp + b.dp)
         return Sym(a.n * b.n, a.dp + b.dp)
     return Sym(a.r_() * b.r_(), None)
 
@@ -220,13 +240,16 @@ class Sym:
     stays in linear integer arithmetic, which z3 decides orders of magnitude faster than the mixed
     to_real(..)/100 form); otherwise `n` is a z3 Real term (result of a division by a symbolic value ...)."""
 
-    __slots__ = ("n", "dp")
+    __slots__ = ("n", "dp", "alts")
 
-    def __init__(self, n, dp=None):
+    def __init__(self, n, dp=None, alts=None):
         if dp is None and n.is_int():
             dp = 0
         self.n = n
         self.dp = dp
+        # alts: for a value drawn from a finite set (Ctx.pick): [(z3 condition, python int at scale dp)].
+        # A product with such a value is distributed over the alternatives and so stays linear.
+        self.alts = alts
 
     def r_(self):
         """the value as a z3 Real term"""
@@ -273,7 +296,7 @@ class Sym:
         return Sym(_ctx.floordiv(self.e, b.e))
 
     def __neg__(self):
-        return Sym(-self.n, self.dp)
+        return Sym(-self.n, self.dp, None if self.alts is None else [(c, -v) for c, v in self.alts])
 
     def __pos__(self):
         return self
@@ -894,6 +917,21 @@ class Ctx:
         self.solver.add(v >= lo, v <= hi)
         return Sym(v, 3)
 
+    def pick(self, name, values):
+        """a value drawn from a finite set WITHOUT forking (ite over a selector); products with it are distributed
+        over the alternatives and stay linear"""
+        vals = [as_sym(v) for v in values]
+        d = max(x.dp for x in vals)
+        ints = [_const_int(x.n) * 10 ** (d - x.dp) for x in vals]
+        v = z3.Int(name)
+        self._reg(name, "pick", v, [repr(x) for x in values])
+        self.solver.add(v >= 0, v < len(ints))
+        alts = [(v == i, k) for i, k in enumerate(ints)]
+        t = z3.IntVal(ints[-1])
+        for c_, k in reversed(alts[:-1]):
+            t = z3.If(c_, z3.IntVal(k), t)
+        return Sym(t, d, alts)
+
     def boolean(self, name):
         """eagerly forked boolean"""
         v = z3.Bool(name)
@@ -1037,6 +1075,9 @@ class ConcreteCtx:
 
     symbool = boolean
 
+    def pick(self, name, values):
+        return list(values)[int(self._get(name))]
+
     def choose(self, name, options):
         return list(options)[int(self._get(name))]
 
@@ -1051,8 +1092,9 @@ class ConcreteCtx:
         return _EPOCH + _real_timedelta(milliseconds=ms), ms
 
     def assume(self, c):
-        if not c:
-            raise Infeasible()
+        # concrete inputs come from a model that satisfies every assumption in exact arithmetic; re-evaluating them on
+        # floats could only add float noise (0.05 + 0.01 <= 0.06 is False in binary floating point)
+        return
 
     def ob(self, name, cond, **tags):
         self.obligations.append((name, bool(cond), dict(self.tags, **tags)))
@@ -1112,7 +1154,7 @@ def describe_values(ctx_, values):
     out = {}
     for name, (kind, var, meta) in ctx_.inputs.items():
         v = values.get(name)
-        if kind in ("choice", "enum") and meta is not None and v is not None:
+        if kind in ("choice", "enum", "pick") and meta is not None and v is not None:
             out[name] = meta[int(v)]
         elif kind == "cents":
             out[name] = "%.2f" % (int(v) / 100)
